@@ -6,6 +6,7 @@ adversarial rounds — a description of the kind of tester the change has to sli
 Create the worktrees first:  for p in C01 …; do git -C /repo worktree add -q /tmp/wt/${p}<suffix> HEAD; done
 """
 import json
+import os
 import sys
 
 suffix = sys.argv[1]
@@ -21,6 +22,8 @@ for l in open('/verif/properties.jsonl'):
     props[d['id']] = d
 for pid, d in props.items():
     wt = f"/tmp/wt/{pid}{suffix}"
+    if not os.path.isdir(wt):
+        continue  # a round may cover a subset of the properties
     text = f"""You are working in a scratch git worktree of a small Rust library (flipdot: drives Luminator flip-dot/LED signs over RS-485: Intel-HEX frame codec libs/core/src/frame.rs, frame<->message mapping libs/core/src/message.rs, page bit layout libs/core/src/page.rs, sign types libs/core/src/sign_type.rs, controller src/sign.rs, serial transport libs/serial/src, virtual signs + ODK bridge libs/testing/src).
 The worktree is at {wt} — work ONLY inside {wt} (cd there first; do not touch /repo, /verif or any other directory; do not commit; do NOT use `git stash` — it is shared with other worktrees; to test without your change use `git diff -- . ':!tests/seeded_demo.rs' > patch.diff; git apply -R patch.diff; ...; git apply patch.diff`). No network; build/test with `cargo test --workspace --offline` from {wt} (first build ~1 min; tests run in the debug profile so arithmetic overflow panics).
 
